@@ -664,7 +664,7 @@ where
         // during the current revision and thus obtained an `&` reference to those fields
         // that is still live.
 
-        {
+        let last_updated_at = {
             // SAFETY: `updated_at` is never exclusively borrowed, so borrowing it is sound
             let last_updated_at = unsafe { (*data_raw).updated_at.load() };
             assert!(
@@ -700,7 +700,31 @@ where
                     must have been leaked across threads"
                 );
             }
+
+            last_updated_at
+        };
+
+        // Comparing the fields runs the user's `PartialEq`. If it panics, release the write lock
+        // again (the struct simply counts as not yet updated in this revision); otherwise every
+        // later execution of the creating query fails the "two concurrent writers" assertion.
+        struct UnlockOnUnwind {
+            updated_at: *const OptionalAtomicRevision,
+            previous: Option<Revision>,
         }
+
+        impl Drop for UnlockOnUnwind {
+            fn drop(&mut self) {
+                // SAFETY: `updated_at` points into a table slot, which is never moved or freed
+                // while the database is borrowed, and it is never exclusively borrowed.
+                unsafe { (*self.updated_at).swap(self.previous) };
+            }
+        }
+
+        let unlock_on_unwind = UnlockOnUnwind {
+            // SAFETY: `data_raw` is a valid pointer to an initialized value (caller invariant).
+            updated_at: unsafe { &raw const (*data_raw).updated_at },
+            previous: last_updated_at,
+        };
 
         // SAFETY: We have claimed mutable access by swapping `None` into
         // `updated_at`, so the retained fields are exclusively borrowed.
@@ -717,6 +741,7 @@ where
 
         let identity_fields_changed =
             C::update_fields(current_deps.changed_at, revisions, old_fields, fields);
+        std::mem::forget(unlock_on_unwind);
 
         if identity_fields_changed {
             // Consider this a new tracked struct when any identity field changed.
